@@ -18,7 +18,9 @@ def tasks(tier):
     cases = [((2, 3), [1, 2]), ((1, 2, 1), [3, 1]), ((2, 1, 2), [2, 3])] + ([((3, 3), [2, 1]), ((1, 1, 2, 1), [4, 2])] if tier == 'thorough' else [])
     comb = [Task('props.wire:run', name='C10/wire.combine_two_pops.ns%s.c%s' % ('_'.join(map(str, ns)), '_'.join(map(str, tc))), fname='c10_combine_two_pops',
                  kwargs=dict(ns=list(ns), tocombine=tc), timeout=600) for ns, tc in cases]
-    return [Task('props.wire:run', name='C10/wire.c10_reorder_pops', fname='c10_reorder_pops', timeout=300)] + comb + bounded_tasks('C10', tier)
+    mc = [Task('props.wire:run', name='C10/wire.misc_combine_pops.ns%s.i%s' % ('_'.join(map(str, ns)), '_'.join(map(str, ix))), fname='c10_misc_combine_pops',
+               kwargs=dict(ns=list(ns), idx=ix), timeout=600) for ns, ix in [((2, 1), [0, 1]), ((1, 2, 1), [0, 1]), ((2, 1, 1), [0, 2]), ((1, 1, 2), [1, 2])]]
+    return [Task('props.wire:run', name='C10/wire.c10_reorder_pops', fname='c10_reorder_pops', timeout=300)] + comb + mc + bounded_tasks('C10', tier)
 
 
 MANIFEST_ENTRY = dict(
